@@ -649,7 +649,9 @@ func (x *zsExec) checkEnd() {
 	sort.Strings(refs)
 	allDone := true
 	for _, c := range x.clients {
-		if !c.finished {
+		// (a request abandoned before it was answered is over as far as draining is concerned)
+		abandoned := c.req.Impatient && c.cancelled && c.replies == 0
+		if !c.finished && !abandoned {
 			allDone = false
 		}
 	}
@@ -698,6 +700,9 @@ func zsScenarios(thorough bool) []*zsScenario {
 	add(&zsScenario{Name: "newserver-fail", GPUs: metal1, Faults: []string{"newserver"}, Reqs: []zsReq{{Model: "A", Hold: 1}, {Model: "B", Hold: 1}}})
 	add(&zsScenario{Name: "ping-fail", GPUs: metal1, Faults: []string{"ping"}, Reqs: []zsReq{{Model: "A", Hold: 2}, {Model: "A", Hold: 1}}})
 	add(&zsScenario{Name: "impatient-load", GPUs: metal1, Reqs: []zsReq{{Model: "A", Hold: 1, Impatient: true}, {Model: "A", Hold: 1}}})
+	add(&zsScenario{Name: "impatient-alone", GPUs: metal1, Reqs: []zsReq{{Model: "A", Hold: 1, Impatient: true}}})
+	add(&zsScenario{Name: "impatient-then-other", GPUs: metal1, Reqs: []zsReq{{Model: "A", Hold: 1, Impatient: true}, {Model: "B", Hold: 1}}})
+	add(&zsScenario{Name: "two-gpus-requeue", GPUs: []zsGPU{{Library: "metal", ID: "0"}, {Library: "metal", ID: "1", Total: 1 << 20}}, Env: map[string]string{"OLLAMA_NUM_PARALLEL": "2"}, Reqs: []zsReq{{Model: "A", Hold: 1}, {Model: "B", Hold: 1}}})
 	add(&zsScenario{Name: "queue-full", GPUs: metal1, Env: map[string]string{"OLLAMA_MAX_QUEUE": "1"}, Reqs: []zsReq{{Model: "A", Hold: 1}, {Model: "A", Hold: 1}, {Model: "A", Hold: 0}}})
 	add(&zsScenario{Name: "three-models-max2", GPUs: metal1, Env: map[string]string{"OLLAMA_MAX_LOADED_MODELS": "2"}, Reqs: []zsReq{{Model: "A", Hold: 1}, {Model: "B", Hold: 1}, {Model: "C", Hold: 1}}})
 	add(&zsScenario{Name: "fit-tight", GPUs: metal1, FitTight: true, VRAM: map[string]uint64{"A": 1 << 30, "B": 1 << 30}, Env: map[string]string{"OLLAMA_NUM_PARALLEL": "1"}, Reqs: []zsReq{{Model: "A", Hold: 1}, {Model: "B", Hold: 1}}})
